@@ -41,6 +41,7 @@ THE FULL STATEMENTS (what the property says):
 import Restful.Lemmas.RegistryTotal
 import Restful.Lemmas.StateShape
 import Restful.Lemmas.TieImpPrefix
+import Restful.Lemmas.TieImpRegistry
 namespace Restful
 namespace Props
 open Registry
@@ -370,3 +371,5 @@ end Restful
 -- the imperative functions this property's model rests on, tied to their statement-by-statement
 -- translation (tools/goimp, Gen/Imp.lean, regenerated on every run):
 -- also: Restful.TieImp.T2.fixed_prefix_path
+-- also: Restful.TieImp.add_handler
+-- also: Restful.TieImp.remove_route
